@@ -27,11 +27,20 @@ func Gen(store string) func(t *rapid.T) *Case {
 func GenConc(t *rapid.T) *ConcCase {
 	c := &ConcCase{ErrHandler: rapid.IntRange(0, 4).Draw(t, "eh") != 0, Honour: rapid.Bool().Draw(t, "honour"), Procs: rapid.SampledFrom([]int{2, 4, 16}).Draw(t, "procs")}
 	np := rapid.IntRange(2, 6).Draw(t, "np")
+	kinds := []string{"ok", "ok", "ok", "reject", "block", "block", "slow"}
+	if rapid.IntRange(0, 3).Draw(t, "storm") == 0 {
+		// many publishers failing at once, with an error handler that takes a while
+		np = rapid.IntRange(6, 12).Draw(t, "npStorm")
+		kinds = []string{"reject", "reject", "reject", "ok"}
+		c.EHDelayUs = rapid.SampledFrom([]int{500, 3000, 10000}).Draw(t, "ehDelay")
+	} else if rapid.IntRange(0, 2).Draw(t, "slowEH") == 0 {
+		c.EHDelayUs = rapid.SampledFrom([]int{200, 3000}).Draw(t, "ehDelay")
+	}
 	for p := 0; p < np; p++ {
 		n := rapid.IntRange(1, 5).Draw(t, "n")
 		var ks []string
 		for i := 0; i < n; i++ {
-			ks = append(ks, rapid.SampledFrom([]string{"ok", "ok", "ok", "reject", "block", "block", "slow"}).Draw(t, "kind"))
+			ks = append(ks, rapid.SampledFrom(kinds).Draw(t, "kind"))
 		}
 		c.Publishers = append(c.Publishers, ks)
 	}
